@@ -11,10 +11,12 @@ type Expr interface{ isExpr() }
 type Stmt interface{ isStmt() }
 
 type (
-	Nil    struct{}
-	True   struct{}
-	False  struct{}
-	Vararg struct{}
+	// (one byte each: pointers to zero-size values are not distinct in Go, and
+	// nodes are used as map keys)
+	Nil    struct{ _ byte }
+	True   struct{ _ byte }
+	False  struct{ _ byte }
+	Vararg struct{ _ byte }
 	Int    struct{ V int64 }
 	Float  struct{ V float64 }
 	Str    struct{ V string }
@@ -128,7 +130,7 @@ type (
 		F    *Func
 	}
 	Return struct{ Exprs []Expr }
-	Break  struct{}
+	Break  struct{ _ byte }
 	Goto   struct{ Label string }
 	Label  struct{ Name string }
 )
